@@ -2721,19 +2721,21 @@ def _bytes_provenance(e, fi: FunctionInfo, M: "ReaderModel", gens: set[str], at:
         binds = []
         for n in fi.local_nodes():
             if isinstance(n, (ast.For, ast.comprehension)) and any(_is_name(x, e.id) for x in ast.walk(n.target)):
-                binds.append(("iter", n.iter))
+                binds.append(("iter", n.iter, None))
             elif isinstance(n, ast.Assign) and any(_is_name(t, e.id) for t in n.targets):
-                binds.append(("is", n.value))
+                binds.append(("is", n.value, n))
             elif isinstance(n, ast.Assign) and len(n.targets) == 1 and isinstance(n.targets[0], (ast.Tuple, ast.List)) and isinstance(n.value, (ast.Tuple, ast.List)) and len(n.value.elts) == len(n.targets[0].elts) and any(_is_name(t, e.id) for t in n.targets[0].elts):
-                binds += [("is", v_) for t_, v_ in zip(n.targets[0].elts, n.value.elts) if _is_name(t_, e.id)]
+                binds += [("is", v_, n) for t_, v_ in zip(n.targets[0].elts, n.value.elts) if _is_name(t_, e.id)]
             elif isinstance(n, (ast.AugAssign, ast.AnnAssign, ast.NamedExpr)) and _is_name(n.target, e.id):
                 raise Unsupported(f"{fi.fq}: `{e.id}` is bound in a way the decode rule does not follow")
         if e.id in fi.params or not binds:
             raise Unsupported(f"{fi.fq}: origin of the decoded bytes `{e.id}` unknown")
         res = []
-        for how, src in binds:
+        for how, src, bst in binds:
             if how == "is":
-                res.append(_bytes_provenance(src, fi, M, gens, at, depth + 1))
+                # what the name holds is what the buffer held WHEN it was bound: "at end of stream" must hold there
+                here = cfg.stmt_of(bst) if (bst is not None and in_reader and unparse(src) == M.B) else at
+                res.append(_bytes_provenance(src, fi, M, gens, here, depth + 1))
             else:
                 it = src
                 while isinstance(it, ast.Call) and isinstance(it.func, ast.Name) and it.func.id in ("iter", "list", "tuple", "reversed") and len(it.args) == 1:
@@ -3326,7 +3328,11 @@ def _v1_table(fi: FunctionInfo, sentinel: str, A):
     for pre in loop.body[:idx]:
         if isinstance(pre, ast.Assign) and fvar is not None and len(pre.targets) == 1 and _is_name(pre.targets[0], fvar):
             continue
-        if isinstance(pre, ast.If) and not pre.orelse and len(pre.body) == 1 and isinstance(pre.body[0], ast.Continue) and fvar is not None and unparse(pre.test).startswith(f"len({fvar})") or (isinstance(pre, ast.If) and not pre.orelse and len(pre.body) == 1 and isinstance(pre.body[0], ast.Continue) and _is_blank_line_test(pre.test, loop.target.id)):
+        # a malformed line may be skipped or rejected with an error - both are allowed by the property
+        leaves = isinstance(pre, ast.If) and not pre.orelse and len(pre.body) == 1 and isinstance(pre.body[0], (ast.Continue, ast.Raise))
+        if leaves and fvar is not None and unparse(pre.test).startswith(f"len({fvar})"):
+            continue
+        if leaves and isinstance(pre.body[0], ast.Continue) and _is_blank_line_test(pre.test, loop.target.id):
             continue
         if isinstance(pre, ast.Expr) and isinstance(pre.value, ast.Constant):
             continue
@@ -4171,6 +4177,16 @@ def mutants(corpus: Corpus):
             ], "a position in")
         else:
             out.append(("c18-line-end-searched-in-new-chunk-only", "readline has no `while (pos := buffer.find(sep)) ...` loop"))
+    # class "buffer taken (and cleared) before the stream is drained"
+    if rls is not None:
+        mv = find_node(rls, lambda n: isinstance(n, ast.Assign) and isinstance(n.targets[0], ast.Tuple) and isinstance(n.value, ast.Tuple))
+        dr = find_node(rls, lambda n: isinstance(n, ast.While))
+        if mv is not None and dr is not None and dr.lineno < mv.lineno:
+            add2("c18-readlines-takes-buffer-before-draining", "C18.R4", [(dr, ast.get_source_segment(src, mv)), (mv, ast.get_source_segment(src, dr))], "is not known to be set")
+            M_ = _reader(corpus)
+            add("c18-readlines-drains-one-read-only", "C18.R4", dr, f"if not {M_.E}:\n{' ' * dr.col_offset}    {ast.get_source_segment(src, dr.body[0])}", "is not known to be set")
+        else:
+            out.append(("c18-readlines-takes-buffer-before-draining", "readlines no longer drains the stream and then moves the buffer out"))
     # class "file syntax resolved a second time in a conversion"
     locdef = find_node(ts, lambda n: isinstance(n, ast.Assign) and len(n.targets) == 1 and isinstance(n.targets[0], ast.Name) and isinstance(n.value, ast.Subscript) and _cstr(n.value.slice) == "loc")
     tloop = _enclosing_for(locdef) if locdef is not None else None
